@@ -15,7 +15,7 @@ T = {
          'libzmq and the clock are modelled (mc/simzmq.py, validated by conformance/ against real pyzmq); exhaustive only up to the stated deviation bound, frame count and scenario family.', '4 C01'),
 }
 
-BUILT = []
+BUILT = ['C01']
 
 def main():
     checks = []
